@@ -28,7 +28,8 @@ CHECKS["C04"] = dict(
     note="Trusted: harness object store (S3-like blind overwrite so that a rewrite is observable), reference encoders, crypto/x509 for the names-tile expectation. Entries whose certificate cannot be DER are required to contribute no names line; lenient-parser cases are not judged.",
     design_ref="DESIGN.md section 3, C04",
     parts=[P("audit", "^TestC04Audit$", shards=(12, 16)), P("growth", "^TestC04Growth$", shards=(4, 4)),
-           P("issuerrace", "^TestC04IssuerRace$", shards=(2, 8)), P("issuerrace-race", "^TestC04IssuerRace$", race=True, shards=(1, 4), tiers=("thorough",))],
+           P("issuerrace", "^TestC04IssuerRace$", shards=(2, 8)), P("issuerrace-race", "^TestC04IssuerRace$", race=True, shards=(1, 4), tiers=("thorough",)),
+           P("level2boundary", "^TestC04Level2Boundary$", shards=(1, 1))],
     floor=100,
 )
 
